@@ -1,3 +1,4 @@
+import MpsProps.Anchors.C11
 import MpsProofs.Nonce
 import MpsGen.Nonce
 import MpsGen.Sig
